@@ -138,7 +138,7 @@ def dt_explore(res, mod, f, pastify, subs, top, tier):
                 res.nontrivial += 1
             res.outcomes['as fresh'] += 1
 
-    st = explore.bfs(m, 5 if quick else 7, 400 if quick else 20000, 'none', None, on_state, max_states=60 if quick else 400)
+    st = explore.bfs(m, 5 if quick else 7, 400 if quick else 20000, 'none', None, on_state, max_states=60 if quick else 250)
     # long pre-reset histories (behaviour that depends on the number of updates, e.g. buffers compacted in blocks)
     long_hist = F.long_traces(len(m.vs), 40, F.V3 if len(m.vs) == 1 else F.V2)
     for hist in long_hist[::(60 if quick else 12)]:
